@@ -168,6 +168,31 @@ Fixpoint enc (t : ty) (v : val) {struct t} : json :=
   end.
 End Enc.
 
+(* how many times the walk of [enc] goes through marshalJSON (json.go), i.e. through the
+   configured codec: once per Tags / WayNodes value that is written, once per non-empty Members
+   (plus whatever its members need), once per non-zero Date; byte literals ([], null, shims) and
+   everything else need none.  Observable with a counting codec. *)
+Fixpoint mcalls (t : ty) (v : val) {struct t} : Z :=
+  match t, v with
+  | TDate, VTime s => if String.eqb s zero_time then 0 else 1
+  | TTags, VList _ => 1
+  | TWayNodes _, VList _ => 1
+  | TMembers t', VList l => match l with [] => 0 | _ => 1 + fold_right (fun x a => mcalls t' x + a) 0 l end
+  | TPtr t', VSome v' => mcalls t' v'
+  | TSlice t', VList l => fold_right (fun x a => mcalls t' x + a) 0 l
+  | TStruct fs, VStruct vs =>
+      (fix go (fs : list field) (vs : list val) {struct fs} : Z :=
+         match fs, vs with
+         | Field _ _ om ft :: fr, x :: vr =>
+             match ft with
+             | TSkip => go fr vr
+             | _ => if om && is_empty x then go fr vr else mcalls ft x + go fr vr
+             end
+         | _, _ => 0
+         end) fs vs
+  | _, _ => 0
+  end.
+
 (* the standard library's behaviour: map keys sorted *)
 Definition enc_std := enc (@sort_kv string).
 
